@@ -139,6 +139,10 @@ void bn_add(bn_t c, const bn_t a, const bn_t b) {
 			bn_sub_imp(c, a, b);
 			c->sign = sa;
 		}
+		/* Zero can't be negative. */
+		if (bn_is_zero(c)) {
+			c->sign = RLC_POS;
+		}
 	}
 }
 
@@ -202,6 +206,10 @@ void bn_sub(bn_t c, const bn_t a, const bn_t b) {
 		} else {
 			bn_sub_imp(c, b, a);
 			c->sign = (sa == RLC_POS) ? RLC_NEG : RLC_POS;
+		}
+		/* Zero can't be negative. */
+		if (bn_is_zero(c)) {
+			c->sign = RLC_POS;
 		}
 	}
 }
